@@ -12,5 +12,10 @@ CONSTANTS
   FBKinds = {"ok", "openerr", "brk", "drop", "empty", "extra", "reorder"}
   MaxFaulty = 2
   HintKeyed = TRUE
+  Shuffles = {FALSE}
+  ShardReps = 0
+  ShardProcs = 0
+  ShardFlips = 0
+  InPlace = FALSE
 INVARIANT FetchDesign
 INVARIANT Deviations
